@@ -23,6 +23,16 @@ def readRequestHeaderClass (bs : Bytes) : Res Unit :=
 def natsServerProcessFrame (data : Bytes) : Res Unit :=
   if data.length < 4 then .err .invalidData else readRequestHeaderClass (data.drop 4)
 
+/-- `NewFrugalHandlerFunc` with a processor that only reads the request header, on a body that is the
+base64 encoding of `frame`: HTTP status. Fewer than 4 decoded bytes → 400 (frame size unreadable);
+a request header that cannot be read → 500; else 200. -/
+def httpHandle (frame : Bytes) : Res Nat :=
+  if frame.length < 4 then .ok 400 else
+  match readRequestHeaderClass (frame.drop 4) with
+  | .ok _ => .ok 200
+  | .err _ => .ok 500
+  | .panic p => .panic p
+
 /-- One NATS subscriber worker goroutine. -/
 structure Worker where
   alive : Bool
